@@ -53,7 +53,7 @@ def run(ctx, rep):
     rep.rule('R-C08-1', 'every task state a worker callback can produce is handled by the consumer of that task; anything else aborts', 4)
     rep.rule('R-C08-1b', 'worker callbacks assign task->state on every path, and an error state on every failure path of the storage layer', 4)
     rep.rule('R-C08-2', 'every error-counter increment inside a stripe loop is followed by its per-stripe flag or by bail before the next stripe', 12)
-    rep.rule('R-C08-2v', 'the failing return of a stripe engine depends on every error counter', 2)
+    rep.rule('R-C08-2v', 'the failing return of a stripe engine (sync, scrub, the pre-hash of sync, dry, check/fix) depends on every error counter it increments', 5)
     rep.rule('R-C08-3', 'the state produced by a writer callback reaches the error accounting in both io implementations', 2)
     rep.rule('R-C08-4', 'writer errors accumulated after the last io_write_next are collected before the verdict', 1)
     rep.rule('R-C08-5', 'io error limit: the limit test follows the increment and leads to bail', 2)
@@ -165,18 +165,7 @@ def run(ctx, rep):
             rep.check(bool(post), 'R-C08-4', '%s: writer errors collected after the loop' % fname, ends[0].loc(),
                       'collected by %s' % [c.loc() for c in post] if post else 'no call after the stripe loop reads io->writer_error: errors of the last queued stripes never reach the verdict',
                       function=fname, construct='writer errors after the last io_write_next are never collected')
-        # R-C08-2v verdict
-        rets = [i for i in f.all_insts() if i.op == 'store' and f.expr(i.ops[1]) == '&retval' and f.const_of(i.ops[0]) == -1]
-        used = set()
-        for b in range(len(f.blocks)):
-            t = f.term(b)
-            if t.op == 'br' and len(t.ops) == 3 and any(f.bdominates(s, r.block) for r in rets for s in t.succ):
-                e = f.expr(t.ops[0])
-                for cn in ('error', 'silent_error', 'io_error'):
-                    import re as _re
-                    if _re.search(r'(?<![a-z_])%s(?![a-z_])' % cn, e):
-                        used.add(cn)
-        rep.check(used == {'error', 'silent_error', 'io_error'} and bool(rets), 'R-C08-2v', '%s: return -1 depends on error, silent_error and io_error' % fname, f.file, 'counters in the verdict: %s' % sorted(used), function=fname, construct='verdict')
+        verdict_rule(P, rep, 'R-C08-2v', fname)
         # R-C08-5
         for inc in L.increments('io_error'):
             if inc.block not in L.body:
@@ -256,8 +245,12 @@ def run(ctx, rep):
             rep.check(ok, 'R-C08-6', '%s: %s' % (base(f.name), c.callee), c.loc(), 'result tested' if ok else 'result of %s is ignored' % c.callee, function=base(f.name), construct='ignored %s' % c.callee)
             rep.analysed(f)
 
+    for fname in ('state_hash_process', 'state_dry_process', 'state_check_process'):
+        verdict_rule(P, rep, 'R-C08-2v', fname)
     full_transfer_rule(P, rep)
     sticky_failure_rule(P, rep)
+    from .C15 import dirty_bit_rule
+    dirty_bit_rule(P, rep, 'R-C08-9', 'state_scrub_process', {'info_set'})
 
 def full_transfer_rule(P, rep, rid='R-C08-7'):
     """partial transfers are never success: a block write is accepted only when the byte count returned equals the
@@ -415,3 +408,38 @@ def cond_branches(f, call):
                 if v is not None and (v.id in cands or (v.op == 'load' and f.strip(v.ops[0])[0] == 'i' and f.strip(v.ops[0])[1] in names)) and t.id in f.reach([call]):
                     res.append((t, ci))
     return res
+
+
+# counters that are not failures of the run: a block fix repaired is reported, not failed; partial_recover_error is added to error
+NOT_A_FAILURE = {'recovered_error', 'partial_recover_error'}
+
+
+def verdict_rule(P, rep, rid, fname):
+    """every error counter the engine increments (locals named *error that are incremented by one) takes part in a branch that
+    decides the failing return: a counter left out of the verdict turns that class of errors into exit status 0"""
+    import re as _re
+    f = P.fn(fname)
+    rep.analysed(f)
+    counters = set()
+    for a_ in f.all_insts():
+        if a_.op != 'alloca' or a_.id in f.arg_allocas() or not a_.var or not _re.search(r'(^|_)error$', a_.var) or a_.var in NOT_A_FAILURE:
+            continue
+        for u in f.users.get(a_.id, ()):
+            if u.op == 'store' and f.strip(u.ops[1]) == ['i', a_.id]:
+                v = f.inst_of(u.ops[0])
+                if v is not None and v.op == 'add' and f.const_of(v.ops[1]) == 1 and f.inst_of(v.ops[0]) is not None and f.inst_of(v.ops[0]).op == 'load' and f.strip(f.inst_of(v.ops[0]).ops[0]) == ['i', a_.id]:
+                    counters.add(a_.var)
+    if not counters:
+        raise AnalysisBroken('%s: no error counter found' % fname)
+    rets = [i for i in f.all_insts() if i.op == 'store' and f.expr(i.ops[1]) == '&retval' and f.const_of(i.ops[0]) == -1]
+    used = set()
+    for b in range(len(f.blocks)):
+        t = f.term(b)
+        if t.op == 'br' and len(t.ops) == 3 and any(f.bdominates(s_, r.block) for r in rets for s_ in t.succ):
+            e = f.xexpr(t.ops[0])
+            for cn in counters:
+                if _re.search(r'(?<![a-z_])%s(?![a-z_])' % cn, e):
+                    used.add(cn)
+    rep.check(used == counters and bool(rets), rid, '%s: return -1 depends on %s' % (fname, ', '.join(sorted(counters))), rets[0].loc() if rets else f.file,
+              'counters in the verdict: %s' % sorted(used) if used == counters and rets else 'the failing return does not depend on %s (it tests %s): those errors end with a successful exit status' % (sorted(counters - used), sorted(used)),
+              function=fname, construct='verdict')
